@@ -56,9 +56,17 @@ func plan(seed int64, tier string) []vrt.Case {
 }
 
 type auxSpec struct {
-	addr string
-	mode int // 0 password known, 1 no password (""), 2 callback error
+	addr string // as it must appear on the wire (the address itself, no protocol tag)
+	mode int    // 0 password known, 1 no password (""), 2 callback error
 	pw   string
+	in   string // how the application names it (default: addr): "call@winlink.org", an e-mail address ...
+}
+
+func (a auxSpec) input() string {
+	if a.in != "" {
+		return a.in
+	}
+	return a.addr
 }
 
 type scen struct {
@@ -131,6 +139,18 @@ func genScen(r *rand.Rand) scen {
 		}
 		s.aux = append(s.aux, a)
 	}
+	// auxiliary entries of other kinds: an internet address (it has a protocol tag inside the library, never on the
+	// ;FW line) and the station's own address listed once more (as call@winlink.org): entries like any other
+	switch r.Intn(6) {
+	case 0:
+		s.aux = append(s.aux, auxSpec{addr: "ops@example.org", mode: 0, pw: genPassword(r, "smtp")})
+	case 1:
+		s.aux = append(s.aux, auxSpec{addr: "nopass@example.org", mode: 1})
+	case 2:
+		if s.primMode == 0 && s.primary != "" { // (an empty password means "none known" for an auxiliary entry)
+			s.aux = append(s.aux, auxSpec{addr: "N0LIB", in: "n0lib@winlink.org", mode: 0, pw: s.primary})
+		}
+	}
 	return s
 }
 
@@ -148,7 +168,7 @@ func exec(o *vrt.Obs, s scen, tag string) {
 	}
 	w.Plan.ExpectLocator = "JO29PJ"
 	for _, a := range s.aux {
-		w.Aux = append(w.Aux, a.addr)
+		w.Aux = append(w.Aux, a.input())
 	}
 	calls := 0
 	if s.primMode != 2 {
@@ -343,9 +363,9 @@ func run(c vrt.Case) vrt.Obs {
 			{challenge: "1", primary: "pWshort1"},
 			{challenge: strings.Repeat("9", 64), primary: "pWlongchallenge"},
 			{challenge: "with inner spaces", primary: "pWspaces"},
-			{challenge: "12345678", primary: "pWaux", aux: []auxSpec{{"AUX0", 0, "pWauxone"}, {"AUX1", 1, ""}, {"AUX2", 2, ""}, {"AUX3", 0, "pWauxfour"}}},
+			{challenge: "12345678", primary: "pWaux", aux: []auxSpec{{addr: "AUX0", pw: "pWauxone"}, {addr: "AUX1", mode: 1}, {addr: "AUX2", mode: 2}, {addr: "AUX3", pw: "pWauxfour"}}},
 			{challenge: "12345678", primary: "pWnocallback", primMode: 2},
-			{challenge: "12345678", primary: "pWcallbackerr", primMode: 1, aux: []auxSpec{{"AUX0", 0, "pWauxone"}}},
+			{challenge: "12345678", primary: "pWcallbackerr", primMode: 1, aux: []auxSpec{{addr: "AUX0", pw: "pWauxone"}}},
 			{challenge: "12345678", primary: ""},
 		}
 		// responses with leading zeros / small values are rare: search a few challenges that produce them
@@ -366,9 +386,15 @@ func run(c vrt.Case) vrt.Obs {
 			s1.primMode, s2.primMode = 0, 0
 			s2.aux = nil
 			for _, a := range s1.aux { // same addresses, what is known about them differs
-				b := auxSpec{addr: a.addr, mode: r.Intn(3)}
+				b := auxSpec{addr: a.addr, in: a.in, mode: r.Intn(3)}
 				if b.mode == 0 {
 					b.pw = genPassword(r, "z"+a.addr)
+				}
+				if a.addr == "N0LIB" { // the station's own address listed again: its password is the primary one
+					b.mode, b.pw = 0, s2.primary
+					if s2.primary == "" {
+						b.mode = 1
+					}
 				}
 				s2.aux = append(s2.aux, b)
 			}
